@@ -1,66 +1,1143 @@
+// c11: binding of spec/query/TraceQLSem.tla to the real TraceQL planner.
+//
+// Input: cases exported by TLC (one JSON object per line: abstract query, abstract trace database, the
+// definition's result Eval, the mechanism's results PlanEval and the deviation rules that explain a difference).
+// Every case is concretised (abstract atoms -> hostile strings / numbers / timestamps from seeded pools), the
+// spans are stored (directly into tempo_traces + tempo_traces_attrs_gin, or through the REAL writer routes
+// /tempo/spans (Zipkin JSON) and /v1/traces (OTLP protobuf)), the query goes through the REAL reader route
+// (/api/search, /api/v2/search/tags, /api/v2/search/tag/{tag}/values), the generated SQL is executed by chsql
+// and the answer is compared with Eval.  Every executed statement must parse and run.
 package main
 
 import (
 	"bufio"
+	"encoding/hex"
+	"encoding/json"
+	"errors"
+	"flag"
 	"fmt"
+	"math"
 	"net/url"
 	"os"
+	"regexp"
+	"sort"
+	"strconv"
 	"strings"
+	"time"
 
+	commonv1 "go.opentelemetry.io/proto/otlp/common/v1"
+	resourcev1 "go.opentelemetry.io/proto/otlp/resource/v1"
+	tracev1 "go.opentelemetry.io/proto/otlp/trace/v1"
+	"google.golang.org/protobuf/proto"
+
+	"verif/harness/chsql"
 	"verif/harness/e2e"
 )
 
-func main() {
-	w, err := e2e.New(e2e.Options{})
-	if err != nil {
-		panic(err)
+// ---------------------------------------------------------------- abstract case (TLC export)
+
+type Term struct {
+	K   string `json:"k"`
+	Key string `json:"key"`
+	Op  string `json:"op"`
+	Cs  string `json:"cs"`
+	Cn  int    `json:"cn"`
+	Pfx string `json:"pfx"`
+}
+type Agg struct {
+	Fn   string `json:"fn"`
+	Attr string `json:"attr"`
+	Op   string `json:"op"`
+	C    int    `json:"c"`
+}
+type Sel struct {
+	Sh  string `json:"sh"`
+	T   []Term `json:"t"`
+	Agg Agg    `json:"agg"`
+}
+type Query struct {
+	Kind  string   `json:"kind"`
+	Sels  []Sel    `json:"sels"`
+	Ops   []string `json:"ops"`
+	From  int      `json:"from"`
+	To    int      `json:"to"`
+	Limit int      `json:"limit"`
+	Vkey  string   `json:"vkey"`
+}
+type Span struct {
+	A   string `json:"a"`
+	B   string `json:"b"`
+	Nm  string `json:"nm"`
+	Dur int    `json:"dur"`
+	Ts  int    `json:"ts"`
+}
+type Outcome struct {
+	Err  string   `json:"err"`
+	M    []int    `json:"M"`
+	Ms   [][]int  `json:"ms"`
+	Seqs [][]int  `json:"seqs"`
+	Strs []string `json:"strs"`
+}
+type Case struct {
+	Layer   string    `json:"layer"`
+	H       int       `json:"h"`
+	I       int       `json:"i"`
+	Q       Query     `json:"q"`
+	Db      [][]Span  `json:"db"`
+	Def     Outcome   `json:"def"`
+	Mech    []Outcome `json:"mech"`
+	Cand    bool      `json:"cand"`
+	Explain []string  `json:"explain"`
+}
+
+// ---------------------------------------------------------------- concretisation
+
+var keyPairs = [][2]string{
+	{"http.status", "httpXstatus"}, {"k-1", "k_1"}, {"Attr", "attr"}, {"a.b.c", "a.b"}, {"x_y", "x.y"}, {"span.kind", "spanXkind"},
+}
+
+// sx, sy (decoy partner of sx), zz (stored nowhere)
+var strTriples = [][3]string{
+	{"a.b", "aXb", "a.bb"},
+	{"it's", "its", "it''s"},
+	{`q"uo"te`, "quote", `q\"uo\"te`},
+	{`back\slash`, "backslash", `back\\slash`},
+	{"50%", "50x", "5_%"},
+	{"a_b", "aZb", "a__b"},
+	{"x|y", "x", "y"},
+	{"(grp)+", "grp", "(grp)"},
+	{"[a-c]", "b", "[a-c]+"},
+	{"^start$", "start", "^start"},
+	{"ünï€", "uni", "ÜNÏ"},
+	{"tab\there", "tab here", "tabthere"},
+	{"a`tick", "atick", "a``tick"},
+	{"x' OR '1'='1", "x", "x' OR 1=1 --"},
+	{"plain", "PLAIN", "plai"},
+}
+var nameTriples = [][3]string{
+	{"GET /a.b", "GET /aXb", "GET /a"},
+	{"op'1", "op1", "op''1"},
+	{`n\d`, "n7", `n\\d`},
+	{"run(x)", "runx", "run"},
+	{"lookup", "LOOKUP", "look"},
+}
+var alphas = []float64{4, 2.5, 35, 0.5, 12}
+var durUnits = []int64{500000, 250000, 1000000, 60000000} // microseconds per duration unit
+
+type Variant struct {
+	ID          int
+	KeyA, KeyB  string
+	SX, SY, ZZ  string
+	NP, NQ, NZZ string
+	Alpha       float64
+	NumStyle    int   // spelling of stored numeric values
+	DurUnitUs   int64 // microseconds
+	Layout      int   // 0: 8h ticks across midnights; 1: 1s ticks inside one day; 2: 1h ticks across one midnight
+	Collide     bool  // span ids are reused across traces
+	Quote       int   // bias for the quoting style of string constants
+}
+
+func mkVariant(id int) Variant {
+	r := uint64(id)*0x9E3779B97F4A7C15 + 0x1234567
+	next := func(n int) int {
+		r ^= r << 13
+		r ^= r >> 7
+		r ^= r << 17
+		return int(r % uint64(n))
 	}
-	defer w.Close()
-	base := int64(1700000000)
-	span := func(tid, sid string, tsSec int64, durUs int64, name string, tags map[string]string) string {
-		var tg []string
-		for k, v := range tags {
-			tg = append(tg, fmt.Sprintf("%q:%q", k, v))
+	kp := keyPairs[next(len(keyPairs))]
+	st := strTriples[next(len(strTriples))]
+	nt := nameTriples[next(len(nameTriples))]
+	v := Variant{ID: id, KeyA: kp[0], KeyB: kp[1], SX: st[0], SY: st[1], ZZ: st[2], NP: nt[0], NQ: nt[1], NZZ: nt[2],
+		Alpha: alphas[next(len(alphas))], NumStyle: next(4), DurUnitUs: durUnits[next(len(durUnits))],
+		Layout: next(3), Collide: next(2) == 1, Quote: next(3)}
+	if next(2) == 1 {
+		v.KeyA, v.KeyB = v.KeyB, v.KeyA
+	}
+	return v
+}
+
+func (v *Variant) tick(t int) int64 { // unix seconds of tick t
+	const midnight = 1700006400 // 2023-11-15 00:00:00 UTC
+	switch v.Layout {
+	case 0: // DayOfTick = <<0,0,1,1,1,2>>: ticks 0,1 | 2,3,4 | 5
+		return midnight - 15*3600 + int64(t)*8*3600
+	case 1:
+		return midnight + 3600 + int64(t)
+	default: // midnight between tick 1 and tick 2
+		return midnight - 2*3600 + 1800 + int64(t)*3600
+	}
+}
+
+func fnum(f float64) string { return strconv.FormatFloat(f, 'f', -1, 64) }
+
+// stored spelling of numeric value n (abstract 1 or 3)
+func (v *Variant) numStored(n int) string {
+	f := float64(n) * v.Alpha
+	p := fnum(f)
+	switch v.NumStyle {
+	case 1:
+		if strings.Contains(p, ".") {
+			return p + "0"
 		}
-		return fmt.Sprintf(`{"traceId":"%s","id":"%s","timestamp":%d,"duration":%d,"name":%q,"localEndpoint":{"serviceName":"svc"},"tags":{%s}}`,
-			tid, sid, (base+tsSec)*1000000, durUs, name, strings.Join(tg, ","))
+		return p + ".0"
+	case 2:
+		return "0" + p
+	case 3:
+		return strconv.FormatFloat(f, 'e', -1, 64)
 	}
-	body := "[" + strings.Join([]string{
-		span("000000000000000000000000000000a1", "00000000000000b1", 10, 2000000, "n1", map[string]string{"a": "x", "b": "5"}),
-		span("000000000000000000000000000000a1", "00000000000000b2", 20, 500000, "n2", map[string]string{"a": "y"}),
-		span("000000000000000000000000000000a2", "00000000000000b3", 30, 3000000, "n1", map[string]string{"a": "x", "b": "50"}),
-		span("000000000000000000000000000000a3", "00000000000000b4", 40, 100, "n3", map[string]string{"b": "zz"}),
-	}, ",") + "]"
-	code, resp := w.Push("POST", "/tempo/spans", "application/json", []byte(body), nil)
-	w.Settle()
-	fmt.Println("push", code, resp, w.StoreErr, w.Store.Counts)
-	sc := bufio.NewScanner(os.Stdin)
-	for sc.Scan() {
-		line := sc.Text()
-		if line == "" {
+	return p
+}
+
+// spelling of numeric constant c in a query (grammar: -?Integer(.Integer)?)
+func (v *Variant) numConst(c int, salt int, allowNeg bool) string {
+	if c == 0 && allowNeg && salt%2 == 1 {
+		return "-" + fnum(v.Alpha/2)
+	}
+	p := fnum(float64(c) * v.Alpha)
+	if salt%3 == 1 {
+		if strings.Contains(p, ".") {
+			return p + "0"
+		}
+		return p + ".0"
+	}
+	return p
+}
+
+func (v *Variant) durConst(c int, salt int) string {
+	us := int64(c) * v.DurUnitUs
+	switch {
+	case us%1000000 == 0 && salt%2 == 0:
+		return fmt.Sprintf("%ds", us/1000000)
+	case us%1000 == 0 && salt%3 != 2:
+		return fmt.Sprintf("%dms", us/1000)
+	case us%1000 == 0:
+		return fnum(float64(us)/1e6) + "s"
+	}
+	return fmt.Sprintf("%dus", us)
+}
+
+func (v *Variant) atomVal(a string) (string, bool) {
+	switch a {
+	case "n1":
+		return v.numStored(1), true
+	case "n3":
+		return v.numStored(3), true
+	case "sx":
+		return v.SX, true
+	case "sy":
+		return v.SY, true
+	case "p":
+		return v.NP, true
+	case "q":
+		return v.NQ, true
+	}
+	return "", false
+}
+
+func (v *Variant) keyName(k string) string {
+	switch k {
+	case "a":
+		return v.KeyA
+	case "b":
+		return v.KeyB
+	}
+	return k
+}
+
+// quote a string constant for TraceQL: "..." (JSON escapes) or `...`
+func quoteTQ(s string, style int) string {
+	tickOK := !strings.ContainsAny(s, "`\t\n\r") && !strings.HasSuffix(s, `\`)
+	if tickOK {
+		// an odd number of trailing backslashes would escape the closing tick; any backslash is kept literally
+		n := 0
+		for i := len(s) - 1; i >= 0 && s[i] == '\\'; i-- {
+			n++
+		}
+		tickOK = n%2 == 0
+	}
+	if style == 1 && tickOK {
+		return "`" + s + "`"
+	}
+	var sb strings.Builder
+	enc := json.NewEncoder(&sb)
+	enc.SetEscapeHTML(false)
+	_ = enc.Encode(s)
+	return strings.TrimSuffix(sb.String(), "\n")
+}
+
+func (v *Variant) strConst(t Term, salt int) string {
+	isName := t.Key == "name"
+	lit := func(a string) string {
+		switch a {
+		case "zz":
+			if isName {
+				return v.NZZ
+			}
+			return v.ZZ
+		}
+		s, _ := v.atomVal(a)
+		return s
+	}
+	var s string
+	re := t.Op == "=~" || t.Op == "!~"
+	switch t.Cs {
+	case "xy":
+		s = "^(?:" + regexp.QuoteMeta(v.SX) + "|" + regexp.QuoteMeta(v.SY) + ")$"
+	case "pq":
+		s = "^(?:" + regexp.QuoteMeta(v.NP) + "|" + regexp.QuoteMeta(v.NQ) + ")$"
+	default:
+		s = lit(t.Cs)
+		if re {
+			s = "^" + regexp.QuoteMeta(s) + "$"
+		}
+	}
+	return quoteTQ(s, (salt+v.Quote)%2)
+}
+
+func termSalt(t Term) int {
+	h := 7
+	for _, c := range t.K + t.Key + t.Op + t.Cs + t.Pfx {
+		h = h*31 + int(c)
+	}
+	return (h + t.Cn*13) & 0x7fffffff
+}
+
+func (v *Variant) renderTerm(t Term) string {
+	salt := termSalt(t)
+	sp := ""
+	if salt%4 == 0 {
+		sp = " "
+	}
+	var label, val string
+	switch t.K {
+	case "dur":
+		label, val = "duration", v.durConst(t.Cn, salt)
+	case "num":
+		label, val = t.Pfx+v.keyName(t.Key), v.numConst(t.Cn, salt, true)
+	default:
+		if t.Key == "name" {
+			label = "name"
+		} else {
+			label = t.Pfx + v.keyName(t.Key)
+		}
+		val = v.strConst(t, salt)
+	}
+	return label + sp + t.Op + sp + val
+}
+
+var shapeTpl = map[string]string{
+	"empty": "", "s1": "%1", "p1": "(%1)", "and2": "%1 && %2", "or2": "%1 || %2", "pand2": "((%1) && %2)",
+	"and3": "%1 && %2 && %3", "or3": "%1 || %2 || %3", "ao": "%1 && %2 || %3", "oa": "%1 || %2 && %3",
+	"pao": "(%1 && %2) || %3", "apo": "%1 && (%2 || %3)", "poa": "(%1 || %2) && %3", "opa": "%1 || (%2 && %3)",
+	"papa": "(%1 && %2) || (%3 && %4)", "popo": "(%1 || %2) && (%3 || %4)", "nest": "%1 && (%2 || (%3 && %4))",
+	"nest2": "((%1 || %2) && %3) || %4", "flat4": "%1 || %2 && %3 || %4", "flat4b": "%1 && %2 || %3 && %4",
+}
+
+func (v *Variant) renderSel(s Sel) (string, error) {
+	tpl, ok := shapeTpl[s.Sh]
+	if !ok {
+		return "", fmt.Errorf("unknown shape %q", s.Sh)
+	}
+	for i := 0; i < 4 && i < len(s.T); i++ {
+		ph := fmt.Sprintf("%%%d", i+1)
+		if strings.Contains(tpl, ph) {
+			tpl = strings.ReplaceAll(tpl, ph, v.renderTerm(s.T[i]))
+		}
+	}
+	res := "{" + tpl + "}"
+	if s.Agg.Fn != "none" {
+		salt := s.Agg.C*7 + len(s.Agg.Op)
+		attr, num := "", ""
+		switch {
+		case s.Agg.Fn == "count":
+			num = strconv.Itoa(s.Agg.C)
+		case s.Agg.Attr == "dur":
+			attr, num = "duration", v.durConst(s.Agg.C, salt)
+		default:
+			attr = []string{".", "span.", "resource."}[salt%3] + v.keyName(s.Agg.Attr)
+			num = v.numConst(s.Agg.C, salt, false)
+		}
+		res += " | " + s.Agg.Fn + "(" + attr + ") " + s.Agg.Op + " " + num
+	}
+	return res, nil
+}
+
+func (v *Variant) renderQuery(q Query) (string, error) {
+	var parts []string
+	for i, s := range q.Sels {
+		r, err := v.renderSel(s)
+		if err != nil {
+			return "", err
+		}
+		if i > 0 {
+			parts = append(parts, q.Ops[i-1])
+		}
+		parts = append(parts, r)
+	}
+	return strings.Join(parts, " "), nil
+}
+
+// ---------------------------------------------------------------- concrete data
+
+type CSpan struct {
+	Ti, Si   int
+	TraceID  []byte
+	SpanID   []byte
+	TsNs     int64
+	DurNs    int64
+	Name     string
+	Service  string
+	Keys     []string
+	Vals     []string
+	NumKinds map[string]int // key -> abstract numeric value (1|3), for the OTLP typed encoding
+}
+
+func traceID(ti int) []byte {
+	b := make([]byte, 16)
+	copy(b, []byte{0xc1, 0x1c, 0x0f, 0xfe, 0xe0, 0x00, 0x27, 0x5c})
+	b[8] = byte(0xa0 + ti)
+	b[15] = byte(ti)
+	return b
+}
+func spanID(ti, si int, collide bool) []byte {
+	b := make([]byte, 8)
+	copy(b, []byte{0x5b, 0xa7, 0x00, 0x25})
+	if !collide {
+		b[4] = byte(ti)
+	}
+	b[7] = byte(0x10 + si)
+	return b
+}
+
+func (v *Variant) concreteDB(db [][]Span) []CSpan {
+	var res []CSpan
+	for ti, tr := range db {
+		for si, s := range tr {
+			c := CSpan{Ti: ti + 1, Si: si + 1, TraceID: traceID(ti + 1), SpanID: spanID(ti+1, si+1, v.Collide),
+				TsNs: v.tick(s.Ts) * 1e9, DurNs: int64(s.Dur) * v.DurUnitUs * 1000, Service: "svc", NumKinds: map[string]int{}}
+			c.Name, _ = v.atomVal(s.Nm)
+			for _, kv := range [][2]string{{"a", s.A}, {"b", s.B}} {
+				if val, ok := v.atomVal(kv[1]); ok {
+					c.Keys = append(c.Keys, v.keyName(kv[0]))
+					c.Vals = append(c.Vals, val)
+					if kv[1] == "n1" {
+						c.NumKinds[v.keyName(kv[0])] = 1
+					} else if kv[1] == "n3" {
+						c.NumKinds[v.keyName(kv[0])] = 3
+					}
+				}
+			}
+			res = append(res, c)
+		}
+	}
+	return res
+}
+
+// rows exactly as writer/utils/unmarshal/zipkinJsonUnmarshal.go + builder.go onSpan produce them
+func directRows(spans []CSpan) (traces [][]any, attrs [][]any) {
+	for _, s := range spans {
+		traces = append(traces, []any{string(s.TraceID), string(s.SpanID), "", s.Name, s.TsNs, s.DurNs, s.Service, int8(1), "{}"})
+		date := chsql.Date(s.TsNs / 1e9 / 86400)
+		add := func(k, val string) {
+			attrs = append(attrs, []any{date, k, val, string(s.TraceID), string(s.SpanID), s.TsNs, s.DurNs})
+		}
+		add("name", s.Name)
+		add("local_endpoint_service_name", s.Service)
+		for i, k := range s.Keys {
+			add(k, s.Vals[i])
+		}
+		add("service.name", s.Service)
+	}
+	return
+}
+
+func zipkinBody(spans []CSpan) []byte {
+	var arr []map[string]any
+	for _, s := range spans {
+		tags := map[string]string{}
+		for i, k := range s.Keys {
+			tags[k] = s.Vals[i]
+		}
+		arr = append(arr, map[string]any{
+			"traceId": hex.EncodeToString(s.TraceID), "id": hex.EncodeToString(s.SpanID),
+			"timestamp": s.TsNs / 1000, "duration": s.DurNs / 1000, "name": s.Name,
+			"localEndpoint": map[string]any{"serviceName": s.Service}, "tags": tags,
+		})
+	}
+	b, _ := json.Marshal(arr)
+	return b
+}
+
+func otlpBody(v *Variant, spans []CSpan) []byte {
+	str := func(s string) *commonv1.AnyValue {
+		return &commonv1.AnyValue{Value: &commonv1.AnyValue_StringValue{StringValue: s}}
+	}
+	rs := &tracev1.ResourceSpans{
+		Resource:   &resourcev1.Resource{Attributes: []*commonv1.KeyValue{{Key: "service.name", Value: str("svc")}}},
+		ScopeSpans: []*tracev1.ScopeSpans{{}},
+	}
+	for _, s := range spans {
+		sp := &tracev1.Span{TraceId: s.TraceID, SpanId: s.SpanID, Name: s.Name,
+			StartTimeUnixNano: uint64(s.TsNs), EndTimeUnixNano: uint64(s.TsNs + s.DurNs)}
+		for i, k := range s.Keys {
+			val := str(s.Vals[i])
+			if n, ok := s.NumKinds[k]; ok && v.NumStyle == 0 {
+				// typed numeric attribute: the writer prints integers with %d
+				f := float64(n) * v.Alpha
+				if f == math.Trunc(f) {
+					val = &commonv1.AnyValue{Value: &commonv1.AnyValue_IntValue{IntValue: int64(f)}}
+				}
+			}
+			sp.Attributes = append(sp.Attributes, &commonv1.KeyValue{Key: k, Value: val})
+		}
+		rs.ScopeSpans[0].Spans = append(rs.ScopeSpans[0].Spans, sp)
+	}
+	b, _ := proto.Marshal(&tracev1.TracesData{ResourceSpans: []*tracev1.ResourceSpans{rs}})
+	return b
+}
+
+var traceCols = []string{"trace_id", "span_id", "parent_id", "name", "timestamp_ns", "duration_ns", "service_name", "payload_type", "payload"}
+var attrCols = []string{"date", "key", "val", "trace_id", "span_id", "timestamp_ns", "duration"}
+
+func truncate(w *e2e.World) error {
+	for _, t := range []string{"tempo_traces", "tempo_traces_attrs_gin", "tempo_traces_kv"} {
+		if err := w.Store.DB.Truncate(t); err != nil {
+			return err
+		}
+	}
+	return nil
+}
+
+func store(w *e2e.World, v *Variant, spans []CSpan, path string) error {
+	if err := truncate(w); err != nil {
+		return err
+	}
+	switch path {
+	case "direct":
+		tr, at := directRows(spans)
+		if err := w.Store.Insert("tempo_traces", traceCols, tr); err != nil {
+			return err
+		}
+		return w.Store.Insert("tempo_traces_attrs_gin", attrCols, at)
+	case "zipkin":
+		code, body := w.Push("POST", "/tempo/spans", "application/json", zipkinBody(spans), nil)
+		if code/100 != 2 {
+			return fmt.Errorf("zipkin push: %d %s", code, body)
+		}
+	case "zipkin2":
+		code, body := w.Push("POST", "/api/v2/spans", "application/json", zipkinBody(spans), nil)
+		if code/100 != 2 {
+			return fmt.Errorf("zipkin push: %d %s", code, body)
+		}
+	case "otlp":
+		code, body := w.Push("POST", "/v1/traces", "application/x-protobuf", otlpBody(v, spans), nil)
+		if code/100 != 2 {
+			return fmt.Errorf("otlp push: %d %s", code, body)
+		}
+	}
+	if len(w.StoreErr) > 0 {
+		return fmt.Errorf("store: %v", w.StoreErr)
+	}
+	return nil
+}
+
+func dumpTable(w *e2e.World, table string, skip map[string]bool) ([]string, error) {
+	res, err := w.Store.DB.Query("SELECT * FROM " + table)
+	if err != nil {
+		return nil, err
+	}
+	var rows []string
+	for _, r := range res.Rows {
+		var f []string
+		for i, c := range res.Cols {
+			if skip[c] {
+				continue
+			}
+			f = append(f, fmt.Sprintf("%s=%q", c, fmt.Sprint(r[i])))
+		}
+		rows = append(rows, strings.Join(f, " "))
+	}
+	sort.Strings(rows)
+	return rows, nil
+}
+
+// the rows inserted directly must be the rows the real Zipkin route stores (payload excluded)
+func writerEquivalence(w *e2e.World) (bool, string) {
+	db := [][]Span{{{A: "sx", B: "n3", Nm: "p", Dur: 1, Ts: 1}, {A: "none", B: "sy", Nm: "q", Dur: 3, Ts: 2}}, {{A: "n1", B: "none", Nm: "p", Dur: 3, Ts: 4}}}
+	for id := 0; id < 6; id++ {
+		v := mkVariant(id)
+		spans := v.concreteDB(db)
+		skip := map[string]bool{"payload": true, "oid": true}
+		var dumps [2][]string
+		for i, path := range []string{"direct", "zipkin"} {
+			if err := store(w, &v, spans, path); err != nil {
+				return false, err.Error()
+			}
+			for _, t := range []string{"tempo_traces", "tempo_traces_attrs_gin", "tempo_traces_kv"} {
+				d, err := dumpTable(w, t, skip)
+				if err != nil {
+					return false, err.Error()
+				}
+				dumps[i] = append(dumps[i], d...)
+			}
+		}
+		if strings.Join(dumps[0], "\n") != strings.Join(dumps[1], "\n") {
+			return false, fmt.Sprintf("variant %d: direct rows:\n%s\nwriter rows:\n%s", id, strings.Join(dumps[0], "\n"), strings.Join(dumps[1], "\n"))
+		}
+	}
+	return true, ""
+}
+
+// ---------------------------------------------------------------- running a case
+
+type Observed struct {
+	Status   int                 `json:"status"`
+	Err      string              `json:"err,omitempty"`       // "" | sql:<class> | http:<msg class> | panic
+	ErrText  string              `json:"err_text,omitempty"`
+	Seq      []int               `json:"seq"`                 // trace indexes in answer order
+	Spans    map[int][]int       `json:"spans"`               // trace index -> span indexes
+	Strs     []string            `json:"strs,omitempty"`
+	Unknown  []string            `json:"unknown,omitempty"`   // ids in the answer that are not in the database
+	SQL      []map[string]string `json:"sql,omitempty"`
+	Body     string              `json:"body,omitempty"`
+	Unsupp   []string            `json:"unsupported,omitempty"`
+}
+
+type Result struct {
+	H        int      `json:"h"`
+	Layer    string   `json:"layer"`
+	Verdict  string   `json:"verdict"` // ok | explained | unexplained | not_reproduced | infra
+	Flags    []string `json:"flags,omitempty"`
+	Diff     string   `json:"diff,omitempty"`
+	Path     string   `json:"path"`
+	Variant  int      `json:"variant"`
+	TraceQL  string   `json:"traceql"`
+	Detail   any      `json:"detail,omitempty"`
+	ErrClass string   `json:"err_class,omitempty"`
+}
+
+func sqlErrClass(err error) string {
+	switch {
+	case errors.Is(err, chsql.ErrUnsupported):
+		return "unsupported"
+	case errors.Is(err, chsql.ErrSyntax):
+		return "syntax"
+	case errors.Is(err, chsql.ErrType):
+		return "type"
+	case errors.Is(err, chsql.ErrUnknownIdentifier):
+		return "unknown_identifier"
+	case errors.Is(err, chsql.ErrBadArguments):
+		return "bad_arguments"
+	}
+	if strings.Contains(err.Error(), "not under an aggregate function") {
+		return "not_aggregate"
+	}
+	return "other"
+}
+
+func safeGet(w *e2e.World, path string) (code int, body string, panicked string) {
+	defer func() {
+		if r := recover(); r != nil {
+			code, panicked = 0, fmt.Sprint(r)
+		}
+	}()
+	code, body = w.Get(path)
+	return
+}
+
+func runQuery(w *e2e.World, v *Variant, c *Case, spans []CSpan, tql string) Observed {
+	obs := Observed{Spans: map[int][]int{}}
+	q := url.Values{}
+	q.Set("q", tql)
+	q.Set("start", strconv.FormatInt(v.tick(c.Q.From), 10))
+	q.Set("end", strconv.FormatInt(v.tick(c.Q.To), 10))
+	q.Set("limit", strconv.Itoa(c.Q.Limit))
+	path := "/api/search"
+	switch c.Q.Kind {
+	case "tags":
+		path = "/api/v2/search/tags"
+	case "values":
+		path = "/api/v2/search/tag/" + url.PathEscape(v.keyName(c.Q.Vkey)) + "/values"
+	}
+	w.Bridge.Drain()
+	w.Bridge.Unsupported = nil
+	code, body, pan := safeGet(w, path+"?"+q.Encode())
+	obs.Status = code
+	for _, e := range w.Bridge.Drain() {
+		m := map[string]string{"sql": e.SQL}
+		if e.Err != nil {
+			cl := sqlErrClass(e.Err)
+			m["err"] = e.Err.Error()
+			m["class"] = cl
+			if cl == "unsupported" {
+				obs.Unsupp = append(obs.Unsupp, e.Err.Error())
+			} else if obs.Err == "" {
+				obs.Err = "sql:" + cl
+				obs.ErrText = e.Err.Error()
+			}
+		}
+		obs.SQL = append(obs.SQL, m)
+	}
+	if pan != "" {
+		obs.Err, obs.ErrText = "panic", pan
+		return obs
+	}
+	if code != 200 {
+		if obs.Err == "" {
+			obs.Err = "http:" + strconv.Itoa(code)
+			obs.ErrText = body
+		}
+		obs.Body = body
+		return obs
+	}
+	byTrace := map[string]int{}
+	bySpan := map[string]int{}
+	for _, s := range spans {
+		byTrace[hex.EncodeToString(s.TraceID)] = s.Ti
+		bySpan[hex.EncodeToString(s.TraceID)+"/"+hex.EncodeToString(s.SpanID)] = s.Si
+	}
+	switch c.Q.Kind {
+	case "search":
+		var resp struct {
+			Traces []struct {
+				TraceID string `json:"traceID"`
+				SpanSet struct {
+					Spans []struct {
+						SpanID string `json:"spanID"`
+					} `json:"spans"`
+				} `json:"spanSet"`
+			} `json:"traces"`
+		}
+		if err := json.Unmarshal([]byte(body), &resp); err != nil {
+			obs.Err, obs.ErrText, obs.Body = "badjson", err.Error(), body
+			return obs
+		}
+		for _, t := range resp.Traces {
+			ti, ok := byTrace[t.TraceID]
+			if !ok {
+				obs.Unknown = append(obs.Unknown, t.TraceID)
+				continue
+			}
+			obs.Seq = append(obs.Seq, ti)
+			var sp []int
+			for _, s := range t.SpanSet.Spans {
+				si, ok := bySpan[t.TraceID+"/"+s.SpanID]
+				if !ok {
+					obs.Unknown = append(obs.Unknown, t.TraceID+"/"+s.SpanID)
+					continue
+				}
+				sp = append(sp, si)
+			}
+			sort.Ints(sp)
+			obs.Spans[ti] = sp
+		}
+	case "tags":
+		var resp struct {
+			Scopes []struct {
+				Tags []string `json:"tags"`
+			} `json:"scopes"`
+		}
+		if err := json.Unmarshal([]byte(body), &resp); err != nil {
+			obs.Err, obs.ErrText, obs.Body = "badjson", err.Error(), body
+			return obs
+		}
+		for _, s := range resp.Scopes {
+			obs.Strs = append(obs.Strs, s.Tags...)
+		}
+	case "values":
+		var resp struct {
+			TagValues []struct {
+				Value string `json:"value"`
+			} `json:"tagValues"`
+		}
+		if err := json.Unmarshal([]byte(body), &resp); err != nil {
+			obs.Err, obs.ErrText, obs.Body = "badjson", err.Error(), body
+			return obs
+		}
+		for _, s := range resp.TagValues {
+			obs.Strs = append(obs.Strs, s.Value)
+		}
+	}
+	if len(obs.Unknown) > 0 {
+		obs.Body = body
+	}
+	return obs
+}
+
+func eqInts(a, b []int) bool {
+	if len(a) != len(b) {
+		return false
+	}
+	for i := range a {
+		if a[i] != b[i] {
+			return false
+		}
+	}
+	return true
+}
+func sortedCopy(a []int) []int { b := append([]int(nil), a...); sort.Ints(b); return b }
+func subset(a, b []int) bool {
+	m := map[int]bool{}
+	for _, x := range b {
+		m[x] = true
+	}
+	for _, x := range a {
+		if !m[x] {
+			return false
+		}
+	}
+	return true
+}
+func inSeqs(seq []int, seqs [][]int) bool {
+	for _, s := range seqs {
+		if eqInts(seq, s) {
+			return true
+		}
+	}
+	return false
+}
+
+// concrete strings of an abstract tags / values result
+func (v *Variant) concStrs(kind string, strs []string) []string {
+	var r []string
+	for _, s := range strs {
+		if kind == "tags" {
+			r = append(r, v.keyName(s))
+		} else if cv, ok := v.atomVal(s); ok {
+			r = append(r, cv)
+		} else {
+			r = append(r, s)
+		}
+	}
+	sort.Strings(r)
+	return r
+}
+
+var writerKeys = map[string]bool{"local_endpoint_service_name": true, "remoteService.name": true}
+
+// does the observed answer satisfy outcome o (Conforms of TraceQLSem.tla, on observables)?
+// exact: spans must be equal (one selector); otherwise non-empty subset
+func (v *Variant) satisfies(c *Case, obs *Observed, o *Outcome, exactSpans bool) (bool, string) {
+	if obs.Err != "" {
+		return false, "error"
+	}
+	if c.Q.Kind != "search" {
+		var got []string
+		seen := map[string]bool{}
+		for _, s := range obs.Strs {
+			if c.Q.Kind == "tags" && writerKeys[s] {
+				continue
+			}
+			if !seen[s] {
+				seen[s] = true
+				got = append(got, s)
+			}
+		}
+		sort.Strings(got)
+		if strings.Join(got, "\x00") != strings.Join(v.concStrs(c.Q.Kind, o.Strs), "\x00") {
+			return false, "strings"
+		}
+		return true, ""
+	}
+	if len(obs.Unknown) > 0 {
+		return false, "unknown-ids"
+	}
+	if !inSeqs(obs.Seq, o.Seqs) {
+		// classify
+		set := func(seqs [][]int) map[string]bool {
+			m := map[string]bool{}
+			for _, s := range seqs {
+				m[fmt.Sprint(sortedCopy(s))] = true
+			}
+			return m
+		}
+		if set(o.Seqs)[fmt.Sprint(sortedCopy(obs.Seq))] {
+			return false, "order"
+		}
+		want := 0
+		if len(o.Seqs) > 0 {
+			want = len(o.Seqs[0])
+		}
+		switch {
+		case len(obs.Seq) < want:
+			return false, "missing-traces"
+		case len(obs.Seq) > want:
+			return false, "extra-traces"
+		}
+		return false, "wrong-traces"
+	}
+	for _, ti := range obs.Seq {
+		want := sortedCopy(o.Ms[ti-1])
+		got := obs.Spans[ti]
+		if exactSpans {
+			if !eqInts(got, want) {
+				if subset(got, want) {
+					return false, "missing-spans"
+				}
+				return false, "extra-spans"
+			}
+		} else if len(got) == 0 || !subset(got, want) {
+			return false, "extra-spans"
+		}
+	}
+	return true, ""
+}
+
+var errOfFlag = map[string]func(o *Observed) bool{
+	"emptywhere": func(o *Observed) bool { return o.Err == "sql:type" && strings.Contains(o.ErrText, "Tuple()") },
+	"chain3": func(o *Observed) bool {
+		return o.Err == "sql:unknown_identifier" && strings.Contains(o.ErrText, "timestamp_ns")
+	},
+	"tagsv2": func(o *Observed) bool {
+		return strings.HasPrefix(o.Err, "sql:") && strings.Contains(o.ErrText, "not under an aggregate function")
+	},
+}
+
+func (v *Variant) judge(c *Case, obs *Observed) (verdict, diff string) {
+	if len(obs.Unsupp) > 0 {
+		return "infra", "chsql unsupported: " + obs.Unsupp[0]
+	}
+	exact := len(c.Q.Sels) == 1
+	ok, diff := v.satisfies(c, obs, &c.Def, exact)
+	// does the mechanism model predict the observation?
+	predicted := false
+	allMechBad := true
+	for i := range c.Mech {
+		o := &c.Mech[i]
+		if o.Err != "" {
+			if f := errOfFlag[o.Err]; f != nil && f(obs) {
+				predicted = true
+			}
 			continue
 		}
-		path := "/api/search"
-		qs := line
-		if strings.HasPrefix(line, "TAGS ") {
-			path = "/api/v2/search/tags"
-			qs = line[5:]
-		} else if strings.HasPrefix(line, "VALUES ") {
-			f := strings.SplitN(line[7:], " ", 2)
-			path = "/api/v2/search/tag/" + f[0] + "/values"
-			qs = f[1]
+		if m, _ := v.satisfies(c, obs, o, true); m {
+			predicted = true
 		}
-		q := url.Values{}
-		q.Set("q", qs)
-		q.Set("start", fmt.Sprint(base))
-		q.Set("end", fmt.Sprint(base+100))
-		q.Set("limit", "10")
-		code, resp := w.Get(path + "?" + q.Encode())
-		fmt.Println("=== ", line)
-		fmt.Println("  ->", code, resp)
-		for _, e := range w.Bridge.Drain() {
-			fmt.Println("  SQL:", e.SQL)
-			fmt.Println("  ERR:", e.Err, "rows", e.Rows)
+		// is this mechanism outcome itself conforming to the definition?
+		good := subsetSeqs(o.Seqs, c.Def.Seqs) && eqStrs(o.Strs, c.Def.Strs)
+		if good {
+			for _, p := range o.Seqs {
+				for _, ti := range p {
+					a, b := sortedCopy(o.Ms[ti-1]), sortedCopy(c.Def.Ms[ti-1])
+					if exact && !eqInts(a, b) || !exact && (len(a) == 0 || !subset(a, b)) {
+						good = false
+					}
+				}
+			}
+		}
+		if good {
+			allMechBad = false
 		}
 	}
+	switch {
+	case ok && c.Cand && allMechBad:
+		return "not_reproduced", ""
+	case ok:
+		return "ok", ""
+	case predicted && c.Cand:
+		return "explained", diff
+	}
+	return "unexplained", diff
+}
+
+func subsetSeqs(a, b [][]int) bool {
+	for _, s := range a {
+		if !inSeqs(s, b) {
+			return false
+		}
+	}
+	return true
+}
+func eqStrs(a, b []string) bool {
+	x, y := append([]string(nil), a...), append([]string(nil), b...)
+	sort.Strings(x)
+	sort.Strings(y)
+	return strings.Join(x, "\x00") == strings.Join(y, "\x00")
+}
+
+func describeDB(spans []CSpan) []map[string]any {
+	var r []map[string]any
+	for _, s := range spans {
+		attrs := map[string]string{}
+		for i, k := range s.Keys {
+			attrs[k] = s.Vals[i]
+		}
+		r = append(r, map[string]any{"trace": s.Ti, "span": s.Si, "trace_id": hex.EncodeToString(s.TraceID), "span_id": hex.EncodeToString(s.SpanID),
+			"timestamp_ns": s.TsNs, "duration_ns": s.DurNs, "name": s.Name, "attrs": attrs})
+	}
+	return r
+}
+
+func main() {
+	casesPath := flag.String("cases", "", "ndjson file of cases exported by TLC")
+	outPath := flag.String("out", "", "result json")
+	seed := flag.Int("seed", 1, "seed")
+	shard := flag.Int("shard", 0, "shard index")
+	shards := flag.Int("shards", 1, "number of shards")
+	writerEvery := flag.Int("writer-every", 40, "store every n-th distinct database through the real writer routes")
+	maxDetail := flag.Int("max-detail", 40, "mismatches reported with full detail per verdict/flag class")
+	flag.Parse()
+	if *casesPath == "" || *outPath == "" {
+		fmt.Fprintln(os.Stderr, "usage: c11 -cases cases.ndjson -out result.json [-seed n] [-shard i -shards n]")
+		os.Exit(2)
+	}
+	t0 := time.Now()
+	w, err := e2e.New(e2e.Options{})
+	if err != nil {
+		fmt.Fprintln(os.Stderr, "world:", err)
+		os.Exit(2)
+	}
+	defer w.Close()
+
+	out := map[string]any{}
+	if *shard == 0 {
+		okEq, msg := writerEquivalence(w)
+		out["writer_equivalence"] = okEq
+		out["writer_equivalence_detail"] = msg
+	}
+
+	f, err := os.Open(*casesPath)
+	if err != nil {
+		fmt.Fprintln(os.Stderr, err)
+		os.Exit(2)
+	}
+	defer f.Close()
+	sc := bufio.NewScanner(f)
+	sc.Buffer(make([]byte, 1<<20), 64<<20)
+
+	counts := map[string]int{}
+	byLayer := map[string]map[string]int{}
+	paths := map[string]int{}
+	flagsSeen := map[string]int{}
+	variants := map[int]bool{}
+	features := map[string]int{}
+	var results []Result
+	detailCount := map[string]int{}
+	var samples []Result
+	distinct := map[string]bool{}
+	lastDB := ""
+	dbCount := 0
+	line := 0
+	ran := 0
+	for sc.Scan() {
+		line++
+		if (line-1)%*shards != *shard {
+			continue
+		}
+		var c Case
+		if err := json.Unmarshal(sc.Bytes(), &c); err != nil {
+			fmt.Fprintf(os.Stderr, "case line %d: %v\n", line, err)
+			os.Exit(2)
+		}
+		vid := (*seed*7919 + c.H) % 4096
+		v := mkVariant(vid)
+		variants[vid] = true
+		spans := v.concreteDB(c.Db)
+		tql, err := v.renderQuery(c.Q)
+		if err != nil {
+			fmt.Fprintln(os.Stderr, err)
+			os.Exit(2)
+		}
+		dbKey := fmt.Sprint(vid, c.Db)
+		path := "direct"
+		if dbKey != lastDB {
+			dbCount++
+		}
+		if *writerEvery > 0 && (c.H+*seed)%*writerEvery == 0 {
+			path = []string{"zipkin", "otlp", "zipkin2"}[(c.H/(*writerEvery))%3]
+		}
+		if dbKey != lastDB || path != "direct" {
+			if err := store(w, &v, spans, path); err != nil {
+				fmt.Fprintf(os.Stderr, "store (%s): %v\n", path, err)
+				os.Exit(2)
+			}
+			lastDB = dbKey
+			if path != "direct" {
+				lastDB = ""
+			}
+		}
+		paths[path]++
+		obs := runQuery(w, &v, &c, spans, tql)
+		verdict, diff := v.judge(&c, &obs)
+		ran++
+		counts[verdict]++
+		if byLayer[c.Layer] == nil {
+			byLayer[c.Layer] = map[string]int{}
+		}
+		byLayer[c.Layer][verdict]++
+		distinct[tql+"\x00"+dbKey] = true
+		for _, s := range c.Q.Sels {
+			features["shape:"+s.Sh]++
+			if s.Agg.Fn != "none" {
+				features["agg:"+s.Agg.Fn]++
+			}
+			for i, t := range s.T {
+				if i < arity(s.Sh) {
+					features["op:"+t.K+t.Op]++
+					if t.Pfx != "" {
+						features["pfx:"+t.Pfx]++
+					}
+				}
+			}
+		}
+		for _, o := range c.Q.Ops {
+			features["chain:"+o]++
+		}
+		features["kind:"+c.Q.Kind]++
+		res := Result{H: c.H, Layer: c.Layer, Verdict: verdict, Diff: diff, Path: path, Variant: vid, TraceQL: tql, ErrClass: obs.Err}
+		if verdict == "explained" {
+			res.Flags = c.Explain
+			for _, fl := range c.Explain {
+				flagsSeen[fl]++
+			}
+		}
+		if verdict != "ok" {
+			key := verdict + fmt.Sprint(res.Flags) + diff
+			if verdict == "unexplained" {
+				key = verdict + c.Layer + diff
+			}
+			detailCount[key]++
+			if detailCount[key] <= *maxDetail {
+				res.Detail = map[string]any{"case": c, "data": describeDB(spans), "observed": obs,
+					"window": []int64{v.tick(c.Q.From), v.tick(c.Q.To)}, "limit": c.Q.Limit, "variant": v}
+			}
+			results = append(results, res)
+		} else if len(samples) < 3 && len(obs.Seq) > 0 {
+			res.Detail = map[string]any{"case": c, "data": describeDB(spans), "observed": obs,
+				"window": []int64{v.tick(c.Q.From), v.tick(c.Q.To)}, "limit": c.Q.Limit}
+			samples = append(samples, res)
+		}
+	}
+	out["ran"] = ran
+	out["distinct"] = len(distinct)
+	out["databases"] = dbCount
+	out["counts"] = counts
+	out["by_layer"] = byLayer
+	out["paths"] = paths
+	out["flags"] = flagsSeen
+	out["variants"] = len(variants)
+	out["features"] = features
+	out["mismatches"] = results
+	out["samples"] = samples
+	out["wall_s"] = time.Since(t0).Seconds()
+	b, _ := json.Marshal(out)
+	if err := os.WriteFile(*outPath, b, 0o644); err != nil {
+		fmt.Fprintln(os.Stderr, err)
+		os.Exit(2)
+	}
+}
+
+func arity(sh string) int {
+	switch sh {
+	case "empty":
+		return 0
+	case "s1", "p1":
+		return 1
+	case "and2", "or2", "pand2":
+		return 2
+	case "and3", "or3", "ao", "oa", "pao", "apo", "poa", "opa":
+		return 3
+	}
+	return 4
 }
